@@ -57,6 +57,20 @@ class CurProc(plumpy.Process):
         raw = getattr(self, '_raw_inputs', None)
         return 0 if raw is not None and raw['script'].get('falsy') else 1
 
+    def _same_job(self):
+        raw = getattr(self, '_raw_inputs', None)
+        return bool(raw is not None and raw['script'].get('all_equal'))
+
+    def __eq__(self, other):
+        # with script option 'all_equal' the processes are records of one and the same job and compare equal (distinct objects all
+        # the same): which process is current is a matter of identity, not of equality
+        if self is other:
+            return True
+        return isinstance(other, CurProc) and self._same_job() and other._same_job()
+
+    def __hash__(self):
+        return hash('one-job') if self._same_job() else object.__hash__(self)
+
     def __init__(self, *args, **kwargs):
         super().__init__(*args, **kwargs)
         self.seg = 0
